@@ -40,7 +40,10 @@ SUBDIRS = ["a", "b", "a/c", "a/d", "b/e", "b/e/f", "b/g", "a/c/h"]
 
 
 def budget(tier):
-    return C.budget(tier, 40.0, 600.0)
+    b = C.budget(tier, 40.0, 600.0)
+    if tier != "quick":
+        b["case_timeout"] = 600.0  # exhaustive enumeration of a small dataset
+    return b
 
 
 def gen_case(rng, tier, index):
@@ -187,6 +190,11 @@ def negative(hr, vers, frng, case, stats, faults, probes) -> int:
     by_kind = collections.defaultdict(list)
     for kind, rel in targets:
         by_kind[kind].append(rel)
+    # every byte offset / every length only for datasets small enough to
+    # finish (a deterministic criterion, no wall clock): <= 5000 bytes in all
+    total_bytes = sum(os.path.getsize(os.path.join(root, rel))
+                      for _, rel in targets)
+    exhaustive = bool(case["exhaustive"]) and total_bytes <= 5000
 
     def detected(kind: str) -> str | None:
         """None when both handles detect the alteration."""
@@ -258,7 +266,7 @@ def negative(hr, vers, frng, case, stats, faults, probes) -> int:
         inject(kind, rel, "empty", b"")
         inject(kind, rel, "extend", data + frng.randbytes(frng.randrange(1, 4)))
         inject(kind, rel, "extend_newline", data + b"\n")
-        if case["exhaustive"]:
+        if exhaustive:
             offsets = range(n)
             lengths = range(1, n)
         else:
@@ -301,8 +309,9 @@ def negative(hr, vers, frng, case, stats, faults, probes) -> int:
         # in-place faults above keep inode and time stamps
         inject(kind, rel, "delete", None)
     stats["files_attacked"] += len(targets)
-    if case["exhaustive"]:
+    if exhaustive:
         probes["exhaustive_offsets"] += 1
+        stats["bytes_enumerated_exhaustively"] += total_bytes
     return depth
 
 
